@@ -35,6 +35,11 @@ inductive IEv where
   /-- end of the case, every call has returned: `n` results are held by their call goroutine,
       neither collected at an await point nor cancelled by a teardown -/
   | quiesce (n : Nat)
+  /-- overlapping pair `(P q1 q2)`, recorded while q1 is parked inside its critical section (it holds the
+      transition mutex): `how` = what the second caller was seen doing (`queued` on the transition mutex,
+      `returned`, blocked `elsewhere`), `st0`/`st1` = the state the environment reported before the second
+      caller was issued / after that sighting. Not a main-flow item: judged on its own (`overlapsOf`). -/
+  | overlap (how st0 st1 : String)
   deriving Repr, BEq, Inhabited
 
 abbrev ITrace := List IEv
@@ -42,6 +47,10 @@ abbrev ITrace := List IEv
 def IEv.isCall : IEv → Bool
   | .xs .. => true
   | .xe .. => true
+  | _ => false
+
+def IEv.isOverlap : IEv → Bool
+  | .overlap .. => true
   | _ => false
 
 /-! ### model → observable alphabet -/
@@ -195,6 +204,7 @@ def collectObs : ITrace → (pos seq : Nat) → (open_ : List (Nat × Nat × Nat
       | some o =>
         collectObs rest pos (seq + 1) (op.filter (fun o' => ¬ (o'.1 = h ∧ o'.2.1 = k)))
           (acc ++ [{ h := h, k := k, xsPos := o.2.2.1, xsSeq := o.2.2.2, xePos := pos, xeSeq := seq, ev := .xe h k f v st }])
+  | .overlap .. :: rest, pos, seq, op, acc => collectObs rest pos (seq + 1) op acc     -- not a main-flow item
   | _ :: rest, pos, seq, op, acc => collectObs rest (pos + 1) (seq + 1) op acc
 
 def findObs (os : List CallObs) (h k : Nat) : Option CallObs := os.find? (fun o => o.h = h ∧ o.k = k)
@@ -218,7 +228,7 @@ def monitorItems (items : List MItem) (tr : ITrace) : Option String :=
     let fixed := fixedCalls calls
     let mAll := canon (modelMain items ++ fixed.map fun c => .xe c.inst.hook c.inst.k c.inst.fails c.inst.snap c.inst.st.name)
     let iFixed := fixed.filterMap fun c => (findObs obs c.inst.hook c.inst.k).map (·.ev)
-    let iAll := canon (tr.filter (fun e => !e.isCall) ++ iFixed)
+    let iAll := canon (tr.filter (fun e => !e.isCall && !e.isOverlap) ++ iFixed)
     if obs.length != calls.length then
       some s!"model executes {calls.length} calls, implementation {obs.length}"
     else if iFixed.length != fixed.length then some "a call the model executes was not observed"
@@ -255,7 +265,36 @@ def monitorItems (items : List MItem) (tr : ITrace) : Option String :=
 def monitor (hooks : List Hook) (nTasks : Nat) (reqs : List Req) (tr : ITrace) : Option String :=
   monitorItems (modelItems hooks nTasks reqs) tr
 
+/-! ### overlapping pairs: what happens while the first request is inside its critical section -/
+
+/-- A gate point of the harness: the step at which the first request of a pair is parked INSIDE its
+    critical section (the scripted body of a transition, the first release round of a teardown). -/
+def Step.isGate : Step → Bool
+  | .body .. => true
+  | .release .. => true
+  | _ => false
+
+/-- What the model predicts for every pair whose first request gets as far as a gate point: the second
+    caller queues on the transition mutex, and the state does not move while the first is in there — it
+    is still the one the first request found (`C01_nothing_happens_while_held`: every move of a caller
+    that has not been inside the mutex yet is disabled while another caller holds it). -/
+def overlapItems (hooks : List Hook) (nTasks : Nat) : Env → List PReq → List IEv
+  | _, [] => []
+  | env, .one q :: qs => overlapItems hooks nTasks (step hooks nTasks env q).1 qs
+  | env, .par a b :: qs =>
+    let r1 := step hooks nTasks env a
+    let r2 := stepHeld hooks nTasks (!env.gone) r1.1 b
+    (if r1.2.1.any Step.isGate then [IEv.overlap "queued" env.st.name env.st.name] else []) ++
+      overlapItems hooks nTasks r2.1 qs
+
+def overlapsOf (tr : ITrace) : List IEv := tr.filter IEv.isOverlap
+
 def monitorPar (hooks : List Hook) (nTasks : Nat) (reqs : List PReq) (tr : ITrace) : Option String :=
-  monitorItems (modelItemsPar hooks nTasks reqs) tr
+  match monitorItems (modelItemsPar hooks nTasks reqs) tr with
+  | some why => some why
+  | none =>
+    let m := overlapItems hooks nTasks {} reqs
+    if overlapsOf tr == m then none
+    else some s!"overlapping pairs: model {repr m} vs implementation {repr (overlapsOf tr)}"
 
 end EnvM
